@@ -403,6 +403,19 @@ def tok_size(t):
     return 1
 
 
+class _Moved:
+    """xvalue of a string (std::move(s)): the constructor / assignment that consumes it leaves s in an unspecified state"""
+    __slots__ = ('s',)
+
+    def __init__(self, s):
+        self.s = s
+
+    def take(self):
+        out = Str(self.s.t)
+        self.s.t = [('MOVED-FROM',)]
+        return out
+
+
 class Obj:
     """abstract object with named fields (the back end instance; a Coordinates argument)"""
 
@@ -567,6 +580,8 @@ class _Frame:
             for v in n['vars']:
                 if isinstance(v.get('init'), int):
                     val = self.ev(v['init'])
+                    if isinstance(val, _Moved):
+                        val = val.take() if not v['tC'].rstrip().endswith('&') else val.s
                     if isinstance(val, Str) and not v['tC'].rstrip().endswith('&') and not self._is_fresh(v['init']):
                         val = val.copy()
                     self.env[v['d']] = val
@@ -575,6 +590,8 @@ class _Frame:
             return
         if k == 'return':
             val = self.ev(n['sub']) if 'sub' in n else None
+            if isinstance(val, _Moved):
+                val = val.take()
             if isinstance(val, Str):
                 val = val.copy()
             raise _Return(val)
@@ -813,6 +830,8 @@ class _Frame:
             if not args:
                 return Str()
             v = self.ev(args[0])
+            if isinstance(v, _Moved):
+                return v.take()
             if isinstance(v, Str):
                 return v.copy()
             if isinstance(v, str):
@@ -820,6 +839,8 @@ class _Frame:
             self.unknown(nid, 'string constructed from this value')
         if (n.get('elidable') or n.get('copymove')) and len(args) == 1:
             v = self.ev(args[0])
+            if isinstance(v, _Moved):
+                return v.take()
             return v.copy() if isinstance(v, Str) else v
         if q.startswith('std::allocator'):
             return None
@@ -866,10 +887,14 @@ class _Frame:
                 return self.load(('back', s))
             if nm in ('operator=', 'assign') and len(args) == 1:
                 v = self.ev(args[0])
+                if isinstance(v, _Moved):
+                    v = v.take() if v.s is not s else v.s
                 s.t = list(v.t) if isinstance(v, Str) else list(_as_text(v, self, nid))
                 return s
             if nm in ('operator+=', 'append', 'push_back') and len(args) == 1:
                 v = self.ev(args[0])
+                if isinstance(v, _Moved):
+                    v = v.s        # appending copies: the source keeps its value
                 s.t.extend(v.t if isinstance(v, Str) else _as_text(v, self, nid))
                 return s
             if nm == 'operator[]':
@@ -890,7 +915,10 @@ class _Frame:
                 self.store(rb, a)
             return None
         if q in ('std::move', 'std::forward') and len(args) == 1:
-            return self.ev(args[0])
+            v = self.ev(args[0])
+            if q == 'std::move' and isinstance(v, Str):
+                return _Moved(v)
+            return v
         if q in ('std::min', 'std::max') and len(args) == 2:
             a, b = self.ev(args[0]), self.ev(args[1])
             if isinstance(a, (int, float)) and isinstance(b, (int, float)):
@@ -939,6 +967,8 @@ class _Frame:
             vals = []
             for a, p in zip(args, g.params):
                 v = self.ev(a)
+                if isinstance(v, _Moved):
+                    v = v.take() if not p['tC'].rstrip().endswith('&') else v.s
                 vals.append(v)
             return self.m.call(g, this, vals)
         self.unknown(nid, 'call of %s is not modelled' % q)
